@@ -384,6 +384,450 @@ def sweep_stream(ctx, cirq, n):
         spec_sweep(ctx, cirq, t, obs, code)
 
 
+# ------------------------------------------------------------------------------------------------
+# Resolver: sympy expressions <-> trees <-> Gallina terms
+# ------------------------------------------------------------------------------------------------
+GEN_SYMS = ['a', 'b', 'c', 'd', 'e']      # any dyadic value
+INT_SYMS = ['n', 'm']                     # bound only to small non-negative integers (exponents)
+POS_SYMS = ['p', 'q']                     # bound only to positive powers of two (bases of negative powers)
+REL_TOL = Fraction(1, 10 ** 9)
+FN_HEADS = ['Abs', 'Max', 'Min', 'floor', 'sign']
+
+
+class Unsupported(Exception):
+    pass
+
+
+def to_tree(v):
+    """sympy / Python value -> ('N', Fraction) | ('S', name) | ('A', head, [children]); raises Unsupported."""
+    import sympy, numbers
+    if isinstance(v, sympy.Basic):
+        if isinstance(v, sympy.Symbol):
+            return ('S', v.name)
+        if isinstance(v, sympy.Rational):
+            return ('N', Fraction(int(v.p), int(v.q)))
+        if isinstance(v, sympy.Float):
+            return num_tree(float(v))
+        if isinstance(v, sympy.Add):
+            return ('A', 'add', [to_tree(x) for x in v.args])
+        if isinstance(v, sympy.Mul):
+            return ('A', 'mul', [to_tree(x) for x in v.args])
+        if isinstance(v, sympy.Pow) and len(v.args) == 2:
+            return ('A', 'pow', [to_tree(x) for x in v.args])
+        name = type(v).__name__
+        if name in FN_HEADS:
+            return ('A', name, [to_tree(x) for x in v.args])
+        raise Unsupported(f'sympy node {name}')
+    if isinstance(v, bool):
+        raise Unsupported('bool')
+    if isinstance(v, numbers.Real):
+        return num_tree(float(v)) if not isinstance(v, int) else ('N', Fraction(v))
+    if isinstance(v, numbers.Complex):
+        c = complex(v)
+        if c.imag == 0:
+            return num_tree(c.real)
+        raise Unsupported('complex value')
+    raise Unsupported(type(v).__name__)
+
+
+def num_tree(x):
+    if x != x or x in (float('inf'), float('-inf')):
+        raise Unsupported('non-finite')
+    return ('N', Fraction(x))
+
+
+def expr_term(t):
+    if t[0] == 'N':
+        return f'(Num {qlit(t[1])})'
+    if t[0] == 'S':
+        return f'(Sym {slit(t[1])})'
+    head = {'add': 'HAdd', 'mul': 'HMul', 'pow': 'HPow'}.get(t[1]) or f'(HFn {FN_HEADS.index(t[1])})'
+    return f'(App {head} {llit(t[2], expr_term)})'
+
+
+def tree_size(t):
+    return 1 + sum(tree_size(c) for c in t[2]) if t[0] == 'A' else 1
+
+
+def tree_depth(t):
+    return 1 + max([tree_depth(c) for c in t[2]], default=0) if t[0] == 'A' else 0
+
+
+def tree_heads(t, acc=None):
+    acc = set() if acc is None else acc
+    if t[0] == 'A':
+        acc.add(t[1])
+        for c in t[2]:
+            tree_heads(c, acc)
+    return acc
+
+
+def dyadic(rng):
+    return Fraction(rng.randint(-12, 12), rng.choice([1, 1, 2, 4]))
+
+
+def gen_expr(rng, depth, syms):
+    """A random sympy expression over the given symbol names (structure is whatever sympy canonicalises it to)."""
+    import sympy
+    if depth <= 0 or rng.random() < 0.18:
+        r = rng.random()
+        if r < 0.62 and syms:
+            return sympy.Symbol(rng.choice(syms))
+        if r < 0.8:
+            return sympy.Integer(rng.randint(-3, 3))
+        if r < 0.93:
+            return sympy.Rational(rng.randint(-7, 7), rng.choice([2, 4]))
+        return sympy.Float(float(dyadic(rng)))
+    kind = rng.choice(['add', 'add', 'mul', 'mul', 'pow', 'fn', 'fn'])
+    sub = lambda: gen_expr(rng, depth - 1, syms)
+    if kind == 'add':
+        return sympy.Add(*[sub() for _ in range(rng.choice([2, 2, 3]))])
+    if kind == 'mul':
+        return sympy.Mul(*[sub() for _ in range(rng.choice([2, 2, 3]))])
+    if kind == 'pow':
+        r = rng.random()
+        if r < 0.45:
+            return sympy.Pow(sub(), rng.choice([2, 2, 3]))
+        if r < 0.7:
+            return sympy.Pow(sympy.Symbol(rng.choice(POS_SYMS)), rng.choice([-1, -2, sympy.Symbol(rng.choice(INT_SYMS))]))
+        if r < 0.85:
+            return sympy.Pow(sub(), sympy.Symbol(rng.choice(INT_SYMS)))
+        return sympy.Pow(rng.choice([2, sympy.Rational(1, 2), 4]), sympy.Symbol(rng.choice(INT_SYMS)))
+    f = rng.choice(FN_HEADS)
+    if f in ('Max', 'Min'):
+        return getattr(sympy, f)(sub(), sub())
+    return getattr(sympy, f)(sub())
+
+
+def gen_resolver(rng):
+    """Returns (entries, cyclic_intended) with entries = [(name, value)] in dictionary order; value is a Python number,
+    a str (alias) or a sympy expression over symbols later in a random order (so acyclic unless a back edge is added)."""
+    import sympy
+    order = GEN_SYMS[:]
+    rng.shuffle(order)
+    entries = []
+    nb = rng.choice([0, 1, 2, 3, 4, 5, 5])
+    bound = order[:nb]
+    for i, s in enumerate(bound):
+        later = order[i + 1:] + [x for x in INT_SYMS + POS_SYMS if rng.random() < 0.3]
+        r = rng.random()
+        if r < 0.4 or not later:
+            v = rng.choice([float(dyadic(rng)), rng.randint(-3, 3), float(rng.randint(-2, 2))])
+        elif r < 0.5:
+            v = rng.choice(order[i + 1:] or [s])                 # alias by name (str)
+        elif r < 0.57:
+            v = sympy.Symbol(rng.choice(order[i + 1:] or [s]))   # alias by symbol
+        elif r < 0.6:
+            v = sympy.Symbol(s)                                  # maps to itself: a fixed point, not a loop
+        else:
+            v = gen_expr(rng, rng.choice([1, 2, 2, 3]), later)
+        entries.append((s, v))
+    for s in INT_SYMS:
+        if rng.random() < 0.6:
+            entries.append((s, rng.choice([0, 1, 2, 2, 3])))
+    for s in POS_SYMS:
+        if rng.random() < 0.6:
+            entries.append((s, rng.choice([0.5, 1, 2, 2.0, 4])))
+    cyclic = False
+    if bound and rng.random() < 0.12:            # a back edge through a fast-path head or an alias
+        i = rng.randrange(len(bound))
+        tgt = sympy.Symbol(rng.choice(bound[:i + 1]))
+        j = next(k for k, (s, _) in enumerate(entries) if s == bound[i])
+        entries[j] = (bound[i], rng.choice([tgt + 1, 2 * tgt, tgt, tgt ** 2 + sympy.Symbol(order[-1])]))
+        cyclic = True
+    rng.shuffle(entries)
+    return entries, cyclic
+
+
+def make_resolver(cirq, entries, rng=None, symbol_keys=None):
+    import sympy
+    d = {}
+    for i, (k, v) in enumerate(entries):
+        sk = symbol_keys[i] if symbol_keys is not None else False
+        d[sympy.Symbol(k) if sk else k] = v
+    return cirq.ParamResolver(d)
+
+
+def entry_tree(v):
+    return ('S', v) if isinstance(v, str) else to_tree(v)
+
+
+def resolver_term(entries):
+    return llit(entries, lambda kv: f'({slit(kv[0])}, {expr_term(entry_tree(kv[1]))})')
+
+
+def gen_envs(rng, k=2):
+    envs = []
+    for _ in range(k):
+        env = {s: dyadic(rng) for s in GEN_SYMS}
+        env.update({s: Fraction(rng.choice([1, 2, 3])) for s in INT_SYMS})
+        env.update({s: Fraction(rng.choice([1, 2, 4, 1]), rng.choice([1, 2])) for s in POS_SYMS})
+        envs.append(env)
+    return envs
+
+
+def env_term(env):
+    return llit(sorted(env.items()), lambda kv: f'({slit(kv[0])}, {qlit(kv[1])})')
+
+
+def impl_value_of(res, e, recursive):
+    """('val', tree, raw) | ('rec',) | ('other', description)."""
+    try:
+        v = res.value_of(e, recursive=recursive)
+    except RecursionError:
+        return ('rec',)
+    except Exception as ex:
+        return ('other', f'{type(ex).__name__}: {ex}'[:200])
+    try:
+        return ('val', to_tree(v), v)
+    except Unsupported as ex:
+        return ('other', f'unrepresentable value {v!r} ({ex})'[:200])
+
+
+def impl_term(g):
+    return {'val': lambda: f'(IVal {expr_term(g[1])})', 'rec': lambda: 'IRecursion', 'other': lambda: 'IOther'}[g[0]]()
+
+
+# ---- reference: ordinary algebra, done by sympy substitution (spec level, no Cirq code involved) ----
+def sym_dict(entries):
+    import sympy
+    return {sympy.Symbol(k): (sympy.Symbol(v) if isinstance(v, str) else sympy.sympify(v)) for k, v in entries}
+
+
+def depends_on_cycle(entries, e):
+    import sympy
+    sd = sym_dict(entries)
+    graph = {k.name: {s.name for s in v.free_symbols} for k, v in sd.items() if v != k}
+    state = {}
+
+    def visit(s):
+        if state.get(s) == 1:
+            return True
+        if state.get(s) == 2 or s not in graph:
+            return False
+        state[s] = 1
+        if any(visit(x) for x in graph[s]):
+            return True
+        state[s] = 2
+        return False
+    return any(visit(s.name) for s in sympy.sympify(e).free_symbols)
+
+
+def ref_resolve(entries, e):
+    """Substitution iterated to a fixpoint; None when the expression depends on a cycle."""
+    import sympy
+    if depends_on_cycle(entries, e):
+        return None
+    sd = sym_dict(entries)
+    cur = sympy.sympify(e)
+    for _ in range(len(sd) + 2):
+        nxt = cur.subs(sd, simultaneous=True)
+        if nxt == cur:
+            return cur
+        cur = nxt
+    return cur
+
+
+def num_eval(x, env):
+    """Exact-as-possible numeric value of a (sympy or Python) value under an assignment of the symbols; complex."""
+    import sympy
+    x = sympy.sympify(x)
+    v = x.subs({sympy.Symbol(k): sympy.Rational(f.numerator, f.denominator) for k, f in env.items()}, simultaneous=True)
+    return complex(sympy.N(v, 30))
+
+
+def values_agree(x, y, envs, tol=1e-9):
+    for env in envs:
+        try:
+            a, b = num_eval(x, env), num_eval(y, env)
+        except Exception:
+            return False
+        if not (abs(a - b) <= tol * (1 + abs(a))):
+            return False
+    return True
+
+
+def skeleton(t, entries):
+    bound = {k for k, _ in entries}
+    if t[0] == 'N':
+        return 'num'
+    if t[0] == 'S':
+        return 'bound' if t[1] in bound else 'free'
+    return t[1] + '(' + ','.join(skeleton(c, entries) for c in t[2]) + ')'
+
+
+def judge_value_of(cirq, entries, e, recursive=True, envs=None):
+    """Spec-level verdict on the real code for one query on a fresh resolver: None if the property holds, else
+    (kind, message).  Expected: RecursionError iff the query depends on a cycle; otherwise the value obtained by
+    substitution."""
+    import sympy
+    res = make_resolver(cirq, entries)
+    got = None
+    try:
+        got = res.value_of(e, recursive=recursive)
+        err = None
+    except RecursionError:
+        err = 'RecursionError'
+    except Exception as ex:
+        err = type(ex).__name__
+    if recursive:
+        want = ref_resolve(entries, e)
+    else:
+        want = sympy.sympify(e).subs(sym_dict(entries), simultaneous=True)
+    if want is None:
+        return None if err == 'RecursionError' else ('no-loop-detected', f'value_of({e}) on a cyclic resolver returned {got!r} / raised {err}')
+    if err is not None:
+        return (err, f'value_of({e}) raised {err}, substitution gives {want}')
+    envs = envs or [{s: Fraction(3, 4) for s in GEN_SYMS + INT_SYMS + POS_SYMS}]
+    try:
+        gs = sympy.sympify(got)
+        bad = gs.has(sympy.nan) or gs.has(sympy.zoo) or gs.has(sympy.oo)
+    except Exception:
+        bad = True
+    if bad:
+        return ('nan', f'value_of({e}) = {got!r}, substitution gives {want}')
+    if not values_agree(got, want, envs):
+        return ('value', f'value_of({e}) = {got!r}, substitution gives {want}')
+    extra = {s.name for s in gs.free_symbols} - {s.name for s in want.free_symbols}
+    if extra:
+        return ('symbols', f'value_of({e}) = {got!r} mentions {sorted(extra)}, substitution gives {want}')
+    return None
+
+
+def subexprs(e):
+    import sympy
+    out = [e]
+    for a in getattr(e, 'args', ()):
+        if isinstance(a, sympy.Basic):
+            out += subexprs(a)
+    return out
+
+
+def spec_value_of(ctx, cirq, entries, e, recursive, envs, stream):
+    """Decide on the real code whether the property's statement fails for this query; minimise to the smallest failing
+    sub-expression (and only the dictionary entries it needs) so that the signature is stable."""
+    verdict = judge_value_of(cirq, entries, e, recursive, envs)
+    if verdict is None:
+        return False
+    best = (e, entries, verdict)
+    for s in sorted(subexprs(e), key=lambda x: len(str(x))):
+        v = judge_value_of(cirq, entries, s, recursive, envs)
+        if v is not None:
+            best = (s, entries, v)
+            break
+    s, ents, v = best
+    needed = list(ents)
+    for kv in list(needed):                       # drop dictionary entries that are not needed for the failure
+        trial = [x for x in needed if x is not kv]
+        v2 = judge_value_of(cirq, trial, s, recursive, envs)
+        if v2 is not None and v2[0] == v[0]:
+            needed, v = trial, v2
+    try:
+        sk = skeleton(to_tree(s), needed)
+    except Unsupported:
+        sk = type(s).__name__
+    sig = f'value_of:{v[0]}:{sk}'
+    ctx.violation(sig, f'ParamResolver({dict(needed)!r}).{v[1]}',
+                  dict(kind='value_of', entries=[[k, repr_value(x)] for k, x in needed], expr=sympy_srepr(s), recursive=recursive))
+    return True
+
+
+def repr_value(v):
+    return v if isinstance(v, (str, int, float)) else {'sympy': sympy_srepr(v)}
+
+
+def sympy_srepr(e):
+    import sympy
+    return sympy.srepr(sympy.sympify(e))
+
+
+def resolver_stream(ctx, cirq, n):
+    import sympy
+    rng = ctx.rng
+    cases, terms = [], []
+    corner = [([('a', 'b'), ('b', 3)], ['a', 'b', 'c']), ([('a', 1.0)], ['a', 'b']), ([], ['a']),
+              ([('a', sympy.Symbol('b') + 1), ('b', sympy.Symbol('a') * 2)], ['a', 'b', 'c']),
+              ([('a', sympy.Symbol('a'))], ['a']), ([('a', sympy.Symbol('a') + 1)], ['a', 'b']),
+              ([('a', sympy.Symbol('b') + 1), ('b', sympy.Symbol('c') * 2), ('c', 0.5)], ['a', 'b', 'c'])]
+    all_syms = GEN_SYMS + INT_SYMS + POS_SYMS
+    for i in range(n):
+        if i < len(corner):
+            entries, qs = corner[i]
+            queries = [sympy.Symbol(q) for q in qs] + [sympy.Symbol(qs[0]) * 2 + sympy.Symbol(qs[-1])]
+        else:
+            entries, _ = gen_resolver(rng)
+            queries = []
+            for _ in range(rng.choice([2, 3, 4])):
+                r = rng.random()
+                if r < 0.2 and entries:
+                    queries.append(sympy.Symbol(rng.choice(entries)[0]))
+                else:
+                    syms = GEN_SYMS if rng.random() < 0.8 else rng.sample(GEN_SYMS, 2)
+                    queries.append(gen_expr(rng, rng.choice([1, 2, 3, 4, 5]), syms))
+        queries = [q for q in queries if isinstance(q, sympy.Basic) and not q.is_Number]
+        if not queries:
+            continue
+        try:
+            rterm = resolver_term(entries)
+            qtrees = [to_tree(q) for q in queries]
+        except Unsupported:
+            continue
+        symbol_keys = [rng.random() < 0.4 for _ in entries]
+        res = make_resolver(cirq, entries, symbol_keys=symbol_keys)
+        envs = gen_envs(rng)
+        rows = []
+        for q, qt in zip(queries, qtrees):
+            g1 = impl_value_of(res, q, False)
+            g = impl_value_of(res, q, True)          # the resolver object (and its memo) is shared by all queries
+            names = sorted(cirq.parameter_names(q))
+            isp = bool(cirq.is_parameterized(q))
+            rows.append((q, qt, g, g1, names, isp))
+            heads = tree_heads(qt)
+            nontriv = tree_size(qt) >= 3 and any(k in {s.name for s in q.free_symbols} for k, _ in entries)
+            ctx.count('value_of', [rterm, expr_term(qt)], nontriv,
+                      sample=dict(resolver=repr(res), expr=str(q), value=str(g[2]) if g[0] == 'val' else g[0], once=str(g1[2]) if g1[0] == 'val' else g1[0],
+                                  parameter_names=names))
+        cases.append((entries, envs, rows))
+        qterm = llit(rows, lambda r: f'({expr_term(r[1])}, {impl_term(r[2])}, {impl_term(r[3])}, {llit(r[4], slit)}, {"true" if r[5] else "false"})')
+        terms.append(f'(mkR {qlit(REL_TOL)} {llit(envs, env_term)} {rterm} {qterm})')
+    allrows = [r for c in cases for r in c[2]]
+    ctx.cov.setdefault('distribution', {})['value_of'] = dict(
+        resolvers=len(cases), queries=len(allrows),
+        by_depth={d: sum(1 for r in allrows if tree_depth(r[1]) == d) for d in range(0, 8)},
+        impl_recursion_errors=sum(1 for r in allrows if r[2][0] == 'rec'), impl_symbolic_results=sum(1 for r in allrows if r[2][0] == 'val' and r[2][1][0] != 'N'),
+        with_function_heads=sum(1 for r in allrows if tree_heads(r[1]) & set(FN_HEADS)), with_pow=sum(1 for r in allrows if 'pow' in tree_heads(r[1])))
+    header = ('From Coq Require Import String ZArith QArith List Bool.\nFrom VF Require Import Base.Harness Codec.Resolver Codec.ResolverHarness.\n'
+              'Import ListNotations.\nLocal Open Scope nat_scope.\n')
+    bad = []
+    for sh, lo in enumerate(range(0, len(terms), 150)):
+        text = header + 'Definition cases : list rcase := [\n' + ';\n'.join(terms[lo:lo + 150]) + '].\nEval vm_compute in resolver_failures cases.\n'
+        flat = coq.parse_nat_list(coq.parse_evals(coq.coq_eval(f'c10_resolver_{ctx.seed}_{sh}', text))[0])
+        bad += [(lo + flat[i], flat[i + 1], flat[i + 2]) for i in range(0, len(flat), 3)]
+    names = {1: 'model-value/impl-error', 2: 'model-loop/impl-value', 3: 'value', 4: 'free-symbols', 5: 'model-out-of-fuel', 20: 'parameter_names'}
+    for ci, qi, code in bad:
+        entries, envs, rows = cases[ci]
+        q, qt, g, g1, pnames, isp = rows[qi]
+        once = 10 < code < 20
+        what = names.get(code - 10 if once else code, str(code))
+        ctx.mark_broken(f'correspondence:value_of{"_once" if once else ""}:{what}',
+                        f'resolver {dict(entries)!r}, expr {q}: implementation {(g1 if once else g)[:2]} vs model')
+        if code == 20:
+            want = sorted(s.name for s in q.free_symbols)
+            if pnames != want or not isp:
+                ctx.violation('parameter_names', f'parameter_names({q}) = {pnames}, free symbols {want}; is_parameterized = {isp}',
+                              dict(kind='names', expr=sympy_srepr(q)))
+            continue
+        # decide on the real code: first this query alone on a fresh resolver, then the recorded sequence (shared memo)
+        if not spec_value_of(ctx, cirq, entries, q, not once, envs, 'value_of'):
+            res = make_resolver(cirq, entries)
+            for (q2, _, _, _, _, _) in rows[:qi + 1]:
+                seq = impl_value_of(res, q2, True)
+            fresh = impl_value_of(make_resolver(cirq, entries), q, True)
+            if seq[0] != fresh[0] or (seq[0] == 'val' and not values_agree(seq[2], fresh[2], envs)):
+                ctx.violation('value_of:memo-changes-result', f'resolver {dict(entries)!r}: value_of({q}) after earlier queries gives {seq[1:]}, fresh resolver gives {fresh[1:]}',
+                              dict(kind='value_of_seq', entries=[[k, repr_value(x)] for k, x in entries], exprs=[sympy_srepr(r[0]) for r in rows[:qi + 1]]))
+
+
 def run(ctx):
     cirq = env.import_cirq()
     ctx.rule = ('sweeps: random trees over Unit/Points/Linspace/ListSweep leaves and Product/Zip/ZipLongest/Concat nodes, nesting <= 3, empty and '
@@ -395,6 +839,7 @@ def run(ctx):
     ctx.set_obligations(coq.compile_props('C10'))
     quick = ctx.tier == 'quick'
     sweep_stream(ctx, cirq, 400 if quick else 4000)
+    resolver_stream(ctx, cirq, 300 if quick else 3000)
 
 
 def replay(ctx, data):
